@@ -246,6 +246,15 @@ Qed.
 Lemma map_id_eq : forall {A} (l : list A), map (fun x => x) l = l.
 Proof. induction l; cbn; congruence. Qed.
 
+Lemma rt_list_id : forall {A} (f : A -> Z -> res W) (g : list Z -> Z -> dres A) l n,
+  n = Z.of_nat (length l) ->
+  (forall a, In a l -> rt_ok (f a) g a) ->
+  rt_ok (ser_list f l) (fun buf => des_z (g buf) n) l.
+Proof.
+  intros A f g l n Hn Hall. pose proof (rt_list_z f g (fun x => x) l n Hn Hall) as H.
+  now rewrite map_id_eq in H.
+Qed.
+
 (* ------------------------------------------------------------------ u32 fields *)
 Lemma align4 : forall V, align_compat V 4.
 Proof. destruct V; reflexivity. Qed.
@@ -725,7 +734,9 @@ Proof.
       cbn [cvD map des_fstruct]. rewrite D1'.
       change (map (fun mt0 : minfo * ty => (fst mt0, (snd mt0, des_ty V E buf (snd mt0)))) r)
         with (cvD V E buf r).
-      rewrite D2'. unfold ins. cbn [fold_left]. fold acc'. rewrite blen_app. f_equal. lia.
+      subst acc'. rewrite blen_app.
+      replace (pos + (blen b1 + blen b2)) with (pos + blen b1 + blen b2) by lia.
+      unfold ins in *. cbn [fold_left]. exact D2'.
 Qed.
 
 Lemma rt_struct : forall V E ms d x, mem_hyp V E ms d -> x <> Mutable ->
@@ -742,3 +753,531 @@ Proof.
       apply (rt_fmembers V2 E ms d true ms [] HH). apply incl_refl.
 Qed.
 
+
+(* ------------------------------------------------------------------ collections *)
+Lemma nonascii_data : forall d, val_nonascii_char (VData d) = false ->
+  forall k v, lookup k d = Some v -> val_nonascii_char v = false.
+Proof.
+  induction d as [|[k' v'] r IH]; intros H k v Hl; [discriminate|].
+  cbn [val_nonascii_char] in H. apply orb_false_elim in H as [H1 H2].
+  cbn [lookup] in Hl. destruct (k =? k').
+  - inversion Hl. now subst.
+  - apply (IH H2 k v Hl).
+Qed.
+Lemma nonascii_seqdata : forall l, val_nonascii_char (VSeqData l) = false ->
+  forall d, In d l -> val_nonascii_char (VData d) = false.
+Proof.
+  induction l as [|d0 r IH]; intros H d Hin; [contradiction|].
+  cbn [val_nonascii_char] in H. apply orb_false_elim in H as [H1 H2].
+  destruct Hin as [<-|Hin]; [exact H1|]. apply (IH H2 d Hin).
+Qed.
+
+Lemma align_v2 : forall a, align_compat V2 a.
+Proof. intros. reflexivity. Qed.
+Lemma align_v1 : forall k, k <> KF128 -> align_compat V1 (sk_size k).
+Proof. intros k Hk. destruct k; try reflexivity. congruence. Qed.
+
+Lemma rt_prim_elems : forall V E k l,
+  forallb (in_range k) l = true -> val_nonascii_char (VSeqP k l) = false ->
+  align_compat V (sk_size k) ->
+  rt_ok (ser_list (ser_prim V E k) l) (fun buf => des_z (des_prim V E buf k) (blen l)) l.
+Proof.
+  intros V E k l Hr Hn Hal.
+  apply rt_list_id; [reflexivity|].
+  intros z Hz. rewrite forallb_forall in Hr. apply rt_prim; [now apply Hr| |exact Hal].
+  intros ->. cbn [val_nonascii_char] in Hn.
+  destruct (Z.leb_spec 128 z) as [Hge|]; [|lia].
+  exfalso. assert (existsb (fun z => 128 <=? z) l = true).
+  { apply existsb_exists. exists z. split; [assumption|now apply Z.leb_le]. }
+  congruence.
+Qed.
+
+Lemma rt_elements : forall V E e (w : val -> bool) fe fu (ge : list Z -> G) v,
+  elem_ok e = true -> is_union e = false -> (V = V1 -> is_f128 e = false) ->
+  elems_wt e w v = true -> val_nonascii_char v = false ->
+  (forall d, w (VData d) = true -> val_nonascii_char (VData d) = false ->
+             rt_ok (fe (VData d)) ge (VData d)) ->
+  rt_ok (ser_elements V E e fe fu v) (fun buf => des_elements V E buf e (ge buf) (seq_length v)) v.
+Proof.
+  intros V E e w fe fu ge v Hok Hnu Hf Hw Hn Hfe.
+  destruct e as [p| | |h ls|e'|n e'|x ms|x dd cs]; try discriminate; cbn [elems_wt] in Hw.
+  - (* primitive elements *)
+    destruct v as [| | |k l| |]; try discriminate.
+    apply andb_prop in Hw as [Hk Hr]. apply sk_eqb_eq in Hk. subst k.
+    assert (Hal : align_compat V (sk_size (prim_sk p))).
+    { destruct V; [|apply align_v2]. apply align_v1. specialize (Hf eq_refl).
+      destruct p; try discriminate; cbn; congruence. }
+    cbn [seq_length].
+    assert (Hgen : rt_ok (ser_list (ser_prim V E (prim_sk p)) l)
+              (fun buf pos => dbind (des_z (des_prim V E buf (prim_sk p)) (blen l) pos)
+                                    (fun l' p' => DOk (VSeqP (prim_sk p) l') p'))
+              (VSeqP (prim_sk p) l)).
+    { apply (rt_map _ _ l (VSeqP (prim_sk p))). now apply rt_prim_elems. }
+    assert (Hraw : rt_ok (ret l)
+              (fun buf pos => dbind (read_bytes buf pos (blen l)) (fun bs p' => DOk (VSeqP KU8 bs) p'))
+              (VSeqP KU8 l)).
+    { apply (rt_map _ _ l (VSeqP KU8)). apply rt_raw. }
+    destruct p; cbn [ser_elements des_elements prim_sk sk_eqb] in *; first [exact Hraw | exact Hgen].
+  - destruct v as [| | | |l|]; try discriminate. cbn [ser_elements des_elements seq_length].
+    apply (rt_map _ _ l VSeqStr).
+    apply rt_list_id; [reflexivity|].
+    intros s Hs. rewrite forallb_forall in Hw. apply rt_string. now apply Hw.
+  - destruct v as [| | | |l|]; try discriminate. cbn [ser_elements des_elements seq_length].
+    apply (rt_map _ _ l VSeqStr).
+    apply rt_list_id; [reflexivity|].
+    intros s Hs. rewrite forallb_forall in Hw. apply rt_wstring. now apply Hw.
+  - destruct v as [| | | | |l]; try discriminate. cbn [ser_elements des_elements seq_length].
+    apply (rt_map _ _ l VSeqData).
+    apply rt_list_id; [reflexivity|].
+    intros d Hd. rewrite forallb_forall in Hw.
+    pose proof (Hfe d (Hw d Hd) (nonascii_seqdata l Hn d Hd)) as Hrt.
+    intros pos Hpos. destruct (Hrt pos Hpos) as [bs [E1 D1]].
+    exists bs. split; [exact E1|]. intros pre post Hpre. unfold undata. now rewrite (D1 pre post Hpre).
+  - destruct v as [| | | | |l]; try discriminate. cbn [ser_elements des_elements seq_length].
+    apply (rt_map _ _ l VSeqData).
+    apply rt_list_id; [reflexivity|].
+    intros d Hd. rewrite forallb_forall in Hw.
+    pose proof (Hfe d (Hw d Hd) (nonascii_seqdata l Hn d Hd)) as Hrt.
+    intros pos Hpos. destruct (Hrt pos Hpos) as [bs [E1 D1]].
+    exists bs. split; [exact E1|]. intros pre post Hpre. unfold undata. now rewrite (D1 pre post Hpre).
+Qed.
+
+Lemma seq_length_nonneg : forall v, 0 <= seq_length v.
+Proof. destruct v; cbn [seq_length]; try lia; try apply blen_nonneg. Qed.
+
+Lemma rt_sequence : forall V E e fe fu (ge : list Z -> G) v,
+  seq_length v <= u32_max ->
+  rt_ok (ser_elements V E e fe fu v) (fun buf => des_elements V E buf e (ge buf) (seq_length v)) v ->
+  rt_ok (ser_sequence V E e fe fu v) (fun buf => des_sequence V E buf e (ge buf)) v.
+Proof.
+  intros V E e fe fu ge v Hlen Hel.
+  pose proof (seq_length_nonneg v) as Hnn.
+  assert (Hbody : rt_ok (seq2 (ser_length V E v) (ser_elements V E e fe fu v))
+            (fun buf pos => dbind (des_prim V E buf KU32 pos)
+                                  (fun len p => des_elements V E buf e (ge buf) len p)) v).
+  { apply (rt_bind _ _ (fun buf => des_prim V E buf KU32)
+             (fun len buf p => des_elements V E buf e (ge buf) len p) (seq_length v) v).
+    - unfold ser_length.
+      replace (wrap_u32 (seq_length v)) with (seq_length v)
+        by (unfold wrap_u32, two32; symmetry; apply Z.mod_small; unfold u32_max in *; lia).
+      apply rt_u32. lia.
+    - exact Hel. }
+  unfold ser_sequence, des_sequence. cbv zeta.
+  destruct (is_prim_ty e); [exact Hbody|].
+  destruct V; [exact Hbody|].
+  apply (rt_dheader V2 E _
+           (fun buf pos => dbind (des_prim V2 E buf KU32 pos)
+                                 (fun len p => des_elements V2 E buf e (ge buf) len p))).
+  exact Hbody.
+Qed.
+
+Lemma rt_array : forall V E n e fe fu (ge : list Z -> G) v,
+  seq_length v = n ->
+  rt_ok (ser_elements V E e fe fu v) (fun buf => des_elements V E buf e (ge buf) (seq_length v)) v ->
+  rt_ok (ser_array V E e fe fu v) (fun buf => des_array V E buf n e (ge buf)) v.
+Proof.
+  intros V E n e fe fu ge v Hlen Hel. subst n.
+  unfold ser_array, des_array.
+  destruct (is_prim_ty e); [exact Hel|].
+  destruct V; [exact Hel|].
+  apply (rt_dheader V2 E _ (fun buf => des_elements V2 E buf e (ge buf) (seq_length v))).
+  exact Hel.
+Qed.
+
+(* ------------------------------------------------------------------ the main induction *)
+Lemma tgood_members : forall V ms,
+  (fix go (ms : list (minfo * ty)) : bool :=
+     match ms with [] => true | (m, t') :: r => wf_ty t' && go r end) ms = true ->
+  (fix go (ms : list (minfo * ty)) : bool :=
+     match ms with [] => false | (_, t') :: r => ty_any (tbad V) t' || go r end) ms = false ->
+  Forall (fun mt => tgood V (snd mt) = true) ms.
+Proof.
+  induction ms as [|[m t] r IH]; intros H1 H2; [constructor|].
+  apply andb_prop in H1 as [H1a H1b]. apply orb_false_elim in H2 as [H2a H2b].
+  constructor; [|now apply IH]. cbn [snd]. unfold tgood. now rewrite H1a, H2a.
+Qed.
+
+Lemma tgood_struct : forall V x ms, tgood V (TStruct x ms) = true ->
+  nodup_z (ids ms) = true /\ tbad V (TStruct x ms) = false /\
+  Forall (fun mt => tgood V (snd mt) = true) ms.
+Proof.
+  intros V x ms H. unfold tgood in H. apply andb_prop in H as [Hw Ha].
+  apply negb_true_iff in Ha. cbn [wf_ty ty_any] in Hw, Ha.
+  apply orb_false_elim in Ha as [Hb Hg].
+  apply andb_prop in Hw as [Hw Hg']. apply andb_prop in Hw as [Hnd _].
+  repeat split; try assumption. now apply tgood_members.
+Qed.
+
+Lemma tgood_elem : forall V e, wf_ty e = true -> ty_any (tbad V) e = false -> tgood V e = true.
+Proof. intros. unfold tgood. now rewrite H, H0. Qed.
+
+Lemma wt_members : forall d ms,
+  (fix go (ms : list (minfo * ty)) : bool :=
+     match ms with
+     | [] => true
+     | (m, t') :: r =>
+       (match lookup (m_id m) d with Some v' => wt t' v' | None => m_opt m end) && go r
+     end) ms = true ->
+  Forall (fun mt : minfo * ty =>
+            match lookup (m_id (fst mt)) d with
+            | Some v' => wt (snd mt) v' = true
+            | None => m_opt (fst mt) = true
+            end) ms.
+Proof.
+  induction ms as [|[m t] r IH]; intros H; [constructor|].
+  apply andb_prop in H as [H1 H2]. constructor; [|now apply IH].
+  cbn [fst snd]. destruct (lookup (m_id m) d); exact H1.
+Qed.
+
+Lemma ty_any_self : forall p t, ty_any p t = false -> p t = false.
+Proof. intros p t H. destruct t; cbn [ty_any] in H; apply orb_false_elim in H; tauto. Qed.
+
+Lemma ser_ty_seq : forall V E e, exists fu, ser_ty V E (TSeq e) = ser_sequence V E e (ser_ty V E e) fu.
+Proof. intros. eexists. reflexivity. Qed.
+Lemma ser_ty_arr : forall V E n e, exists fu, ser_ty V E (TArr n e) = ser_array V E e (ser_ty V E e) fu.
+Proof. intros. eexists. reflexivity. Qed.
+
+Theorem rt_ty : forall V E t, tgood V t = true ->
+  forall v, wt t v = true -> val_nonascii_char v = false ->
+  rt_ok (ser_ty V E t v) (fun buf => des_ty V E buf t) v.
+Proof.
+  intros V E t. induction t using ty_ind'; intros Hg v Hw Hn.
+  - (* primitive *)
+    cbn [wt] in Hw. destruct v as [k z| | | | |]; try discriminate.
+    apply andb_prop in Hw as [Hk Hr]. pose proof (sk_eqb_eq _ _ Hk) as ->.
+    cbn [ser_ty des_ty]. rewrite sk_eqb_refl.
+    apply (rt_map _ _ z (VP (prim_sk p))). apply rt_prim; [exact Hr| |].
+    + intros He. rewrite He in Hn. cbn [val_nonascii_char] in Hn. apply Z.leb_gt in Hn. lia.
+    + destruct V; [|apply align_v2]. apply align_v1.
+      unfold tgood in Hg. apply andb_prop in Hg as [_ Hg]. apply negb_true_iff in Hg.
+      apply ty_any_self in Hg. unfold tbad in Hg. cbn [is_union is_mutable orb] in Hg.
+      apply orb_false_elim in Hg as [Hf _]. destruct p; try discriminate; cbn; congruence.
+  - cbn [wt] in Hw. destruct v as [|s| | | |]; try discriminate. cbn [ser_ty des_ty].
+    apply (rt_map _ _ s VStr). now apply rt_string.
+  - cbn [wt] in Hw. destruct v as [|s| | | |]; try discriminate. cbn [ser_ty des_ty].
+    apply (rt_map _ _ s VStr). now apply rt_wstring.
+  - (* enumeration *)
+    assert (Hh : holder_ok h = true).
+    { unfold tgood in Hg. apply andb_prop in Hg as [Hg _]. cbn [wf_ty] in Hg. now apply andb_prop in Hg as [Hg _]. }
+    destruct v as [| |d| | |]; try (cbn [wt] in Hw; discriminate).
+    cbn [ser_ty des_ty on_data]. unfold as_data.
+    apply (rt_map _ _ d VData). now apply rt_enum.
+  - (* sequence *)
+    unfold tgood in Hg. apply andb_prop in Hg as [Hwf Ha]. apply negb_true_iff in Ha.
+    cbn [wf_ty] in Hwf. apply andb_prop in Hwf as [Hok Hwfe].
+    cbn [ty_any] in Ha. apply orb_false_elim in Ha as [_ Hae].
+    pose proof (tgood_elem V t Hwfe Hae) as Hge.
+    cbn [wt] in Hw. apply andb_prop in Hw as [Hel Hlen]. apply Z.leb_le in Hlen.
+    destruct (ser_ty_seq V E t) as [fu ->]. cbn [des_ty].
+    apply rt_sequence; [exact Hlen|].
+    pose proof (ty_any_self _ _ Hae) as Hb. unfold tbad in Hb.
+    apply orb_false_elim in Hb as [Hb Hb3]. apply orb_false_elim in Hb as [Hb1 Hb2].
+    apply (rt_elements V E t (wt t)); try assumption.
+    + intros ->. now apply orb_false_elim in Hb3 as [? _].
+    + intros d Hwd Hnd. now apply IHt.
+  - (* array *)
+    unfold tgood in Hg. apply andb_prop in Hg as [Hwf Ha]. apply negb_true_iff in Ha.
+    cbn [wf_ty] in Hwf. apply andb_prop in Hwf as [Hwf _]. apply andb_prop in Hwf as [Hwf _].
+    apply andb_prop in Hwf as [Hok Hwfe].
+    cbn [ty_any] in Ha. apply orb_false_elim in Ha as [_ Hae].
+    pose proof (tgood_elem V t Hwfe Hae) as Hge.
+    cbn [wt] in Hw. apply andb_prop in Hw as [Hel Hlen]. apply Z.eqb_eq in Hlen.
+    destruct (ser_ty_arr V E n t) as [fu ->]. cbn [des_ty].
+    apply rt_array; [exact Hlen|].
+    pose proof (ty_any_self _ _ Hae) as Hb. unfold tbad in Hb.
+    apply orb_false_elim in Hb as [Hb Hb3]. apply orb_false_elim in Hb as [Hb1 Hb2].
+    apply (rt_elements V E t (wt t)); try assumption.
+    + intros ->. now apply orb_false_elim in Hb3 as [? _].
+    + intros d Hwd Hnd. now apply IHt.
+  - (* structure *)
+    destruct (tgood_struct V x ms Hg) as [Hnd [Hb Hgm]].
+    destruct v as [| |d| | |]; try (cbn [wt] in Hw; discriminate).
+    cbn [wt] in Hw. apply andb_prop in Hw as [Hw Hgo]. apply andb_prop in Hw as [Hs Hk].
+    apply wt_members in Hgo.
+    unfold tbad in Hb. apply orb_false_elim in Hb as [Hb Hb3]. apply orb_false_elim in Hb as [_ Hmut].
+    assert (Hx : x <> Mutable) by (intros ->; discriminate).
+    assert (HH : mem_hyp V E ms d).
+    { split; [exact Hnd|]. split.
+      - intros ->. apply orb_false_elim in Hb3 as [_ Ho]. cbn [has_opt_member] in Ho.
+        apply Forall_forall. intros mt Hin.
+        destruct (m_opt (fst mt)) eqn:Hm; [|reflexivity].
+        assert (existsb (fun mx : minfo * ty => m_opt (fst mx)) ms = true)
+          by (apply existsb_exists; now exists mt).
+        congruence.
+      - rewrite Forall_forall in *. intros mt Hin.
+        specialize (H mt Hin). specialize (Hgm mt Hin). specialize (Hgo mt Hin).
+        destruct (lookup (m_id (fst mt)) d) as [v'|] eqn:Hl; [|exact Hgo].
+        apply H; [exact Hgm|exact Hgo|]. exact (nonascii_data d Hn _ _ Hl). }
+    rewrite ser_ty_struct. cbn [on_data].
+    eapply rt_ext with (df := fun buf pos =>
+      dbind (des_struct_nested V E buf x (cvD V E buf ms) pos) (fun d' p => DOk (VData d') p)).
+    + reflexivity.
+    + intros. now rewrite des_ty_struct.
+    + pose proof (rt_map _ _ (ins ms d []) VData (rt_struct V E ms d x HH Hx)) as Hr.
+      rewrite (ins_eq ms d Hs Hk) in Hr. exact Hr.
+  - (* union: outside S1/S2 *)
+    exfalso. unfold tgood in Hg. apply andb_prop in Hg as [_ Hg]. apply negb_true_iff in Hg.
+    apply ty_any_self in Hg. discriminate.
+Qed.
+
+(* ------------------------------------------------------------------ top level *)
+Lemma dispatch_ok : forall V E x,
+  (let b1 := repr_id V E x in
+   if 0 =? 0 then
+     if (b1 =? 0) || (b1 =? 2) then Ok (V1, BE)
+     else if (b1 =? 1) || (b1 =? 3) then Ok (V1, LE)
+     else if (b1 =? 6) || (b1 =? 8) || (b1 =? 10) then Ok (V2, BE)
+     else if (b1 =? 7) || (b1 =? 9) || (b1 =? 11) then Ok (V2, LE)
+     else Err E_DATA
+   else Err E_DATA) = Ok (V, E).
+Proof. destruct V, E, x; reflexivity. Qed.
+
+Lemma pad_count_range : forall n, 0 <= pad_count n <= 3.
+Proof. intros. unfold pad_count. lia. Qed.
+
+(* shape of every successful serialization: header with the padding count in the options
+   byte, body, that many zero bytes; total length a multiple of 4 *)
+Theorem encode_shape : forall V E t v bs, encode V E t v = Ok bs ->
+  exists body p n,
+    ser_ty V E t v 0 = Ok (body, p) /\
+    n = pad_count (4 + blen body) /\ 0 <= n <= 3 /\
+    bs = [0; repr_id V E (ty_ext t); 0; n] ++ body ++ zeros n /\
+    blen bs mod 4 = 0 /\ nth 3 bs 0 = n.
+Proof.
+  intros V E t v bs H. unfold encode in H.
+  destruct (is_aggr t); [|discriminate].
+  destruct (ser_ty V E t v 0) as [[body p]| |] eqn:Hs; try discriminate.
+  cbn [bind] in H. inversion H as [Hbs]. clear H.
+  exists body, p, (pad_count (4 + blen body)).
+  assert (Hb : blen (0 :: repr_id V E (ty_ext t) :: 0 :: 0 :: body) = 4 + blen body).
+  { rewrite !blen_cons. lia. }
+  cbn [app set_nth3]. rewrite !Hb. pose proof (pad_count_range (4 + blen body)) as Hr.
+  repeat split; try lia.
+  rewrite !blen_cons, blen_app, blen_zeros by lia.
+  pose proof (blen_nonneg body). unfold pad_count in *. lia.
+Qed.
+
+Theorem roundtrip_tgood : forall V E t v,
+  is_aggr t = true -> tgood V t = true -> wt t v = true -> val_nonascii_char v = false ->
+  exists bs, encode V E t v = Ok bs /\ decode t bs = Ok v.
+Proof.
+  intros V E t v Ha Hg Hw Hn.
+  destruct (rt_ty V E t Hg v Hw Hn 0 ltac:(lia)) as [body [E1 D1]].
+  unfold encode. rewrite Ha, E1. cbn [bind].
+  set (n := pad_count (blen ([0; repr_id V E (ty_ext t); 0; 0] ++ body))).
+  eexists. split; [reflexivity|].
+  cbn [app set_nth3]. unfold decode.
+  replace (blen (0 :: repr_id V E (ty_ext t) :: 0 :: n :: body ++ zeros n) <? 4) with false.
+  2:{ symmetry. apply Z.ltb_ge. rewrite !blen_cons. pose proof (blen_nonneg (body ++ zeros n)). lia. }
+  pose proof (dispatch_ok V E (ty_ext t)) as Hd. cbv zeta in Hd. rewrite Hd. cbn [bind]. rewrite Ha.
+  specialize (D1 [] (zeros n) eq_refl). cbn [app] in D1. rewrite D1. reflexivity.
+Qed.
+
+(* ------------------------------------------------------------------ classes *)
+From Coq Require Import Btauto.
+
+Lemma ty_any_ext : forall p q, (forall t, p t = q t) -> forall t, ty_any p t = ty_any q t.
+Proof.
+  intros p q Hpq t. induction t using ty_ind'; cbn [ty_any]; rewrite Hpq; try reflexivity;
+    try (now rewrite IHt).
+  - f_equal. induction H as [|[m t'] r Hx Hr IH]; [reflexivity|]. cbn [snd] in Hx. now rewrite Hx, IH.
+  - rewrite IHt. f_equal. f_equal.
+    induction H as [|[m t'] r Hx Hr IH]; [reflexivity|]. cbn [snd] in Hx. now rewrite Hx, IH.
+Qed.
+
+Lemma ty_any_or : forall p q t,
+  ty_any (fun t => p t || q t) t = ty_any p t || ty_any q t.
+Proof.
+  intros p q t. induction t using ty_ind'; cbn [ty_any]; try btauto.
+  - rewrite IHt. btauto.
+  - rewrite IHt. btauto.
+  - assert (Hgo :
+      (fix go (ms : list (minfo * ty)) : bool :=
+         match ms with [] => false | (_, t') :: r => ty_any (fun t => p t || q t) t' || go r end) ms =
+      (fix go (ms : list (minfo * ty)) : bool :=
+         match ms with [] => false | (_, t') :: r => ty_any p t' || go r end) ms ||
+      (fix go (ms : list (minfo * ty)) : bool :=
+         match ms with [] => false | (_, t') :: r => ty_any q t' || go r end) ms).
+    { induction H as [|[m t'] r Hx Hr IH]; [reflexivity|]. cbn [snd] in Hx. rewrite Hx, IH. btauto. }
+    rewrite Hgo. btauto.
+  - assert (Hgo :
+      (fix go (ms : list (minfo * ty)) : bool :=
+         match ms with [] => false | (_, t') :: r => ty_any (fun t => p t || q t) t' || go r end) cs =
+      (fix go (ms : list (minfo * ty)) : bool :=
+         match ms with [] => false | (_, t') :: r => ty_any p t' || go r end) cs ||
+      (fix go (ms : list (minfo * ty)) : bool :=
+         match ms with [] => false | (_, t') :: r => ty_any q t' || go r end) cs).
+    { induction H as [|[m t'] r Hx Hr IH]; [reflexivity|]. cbn [snd] in Hx. rewrite Hx, IH. btauto. }
+    rewrite Hgo, IHt. btauto.
+Qed.
+
+Lemma ty_any_mono : forall p q, (forall t, q t = true -> p t = true) ->
+  forall t, ty_any p t = false -> ty_any q t = false.
+Proof.
+  intros p q Hpq.
+  assert (Hqf : forall t0, p t0 = false -> q t0 = false).
+  { intros t0 Hp. destruct (q t0) eqn:Hq; [apply Hpq in Hq; congruence|reflexivity]. }
+  intros t. induction t using ty_ind'; cbn [ty_any]; intros Hf;
+    apply orb_false_elim in Hf as [Hf1 Hf2]; rewrite (Hqf _ Hf1); cbn [orb];
+    try reflexivity; try (now apply IHt).
+  - clear Hf1. revert Hf2. induction H as [|[m t'] r Hx Hr IH]; intros Hf2; [reflexivity|]. cbn [snd] in Hx.
+    apply orb_false_elim in Hf2 as [Ha Hb]. now rewrite (Hx Ha), (IH Hb).
+  - apply orb_false_elim in Hf2 as [Hd Hc]. rewrite IHt by assumption. cbn [orb].
+    clear Hf1. revert Hc. induction H as [|[m t'] r Hx Hr IH]; intros Hc; [reflexivity|]. cbn [snd] in Hx.
+    apply orb_false_elim in Hc as [Ha Hb]. now rewrite (Hx Ha), (IH Hb).
+Qed.
+
+Lemma ty_any_false : forall t, ty_any (fun _ => false) t = false.
+Proof.
+  induction t using ty_ind'; cbn [ty_any orb]; try reflexivity; try assumption.
+  - induction H as [|[m t'] r Hx Hr IH]; [reflexivity|]. cbn [snd] in Hx. now rewrite Hx, IH.
+  - rewrite IHt. cbn [orb].
+    induction H as [|[m t'] r Hx Hr IH]; [reflexivity|]. cbn [snd] in Hx. now rewrite Hx, IH.
+Qed.
+
+Lemma known0_tgood : forall V t v,
+  wf_ty t = true -> known_class V t v = 0%N ->
+  tgood V t = true /\ val_nonascii_char v = false.
+Proof.
+  intros V t v Hwf Hk. unfold known_class in Hk.
+  destruct (val_nonascii_char v); [discriminate|]. split; [|reflexivity].
+  unfold tgood. rewrite Hwf. cbn [andb]. apply negb_true_iff.
+  destruct V; cbn [andb] in Hk.
+  - destruct (ty_any is_f128 t) eqn:H1; [discriminate|].
+    destruct (ty_any has_opt_member t) eqn:H2; [discriminate|].
+    destruct (stage2 t) eqn:H3; [|discriminate]. unfold stage2 in H3. apply negb_true_iff in H3.
+    rewrite (ty_any_ext (tbad V1)
+               (fun t => (fun t => is_union t || is_mutable t) t || (fun t => is_f128 t || has_opt_member t) t))
+      by reflexivity.
+    rewrite ty_any_or, H3. cbn [orb]. rewrite ty_any_or, H1, H2. reflexivity.
+  - destruct (stage2 t) eqn:H3; [|discriminate]. unfold stage2 in H3. apply negb_true_iff in H3.
+    rewrite (ty_any_ext (tbad V2)
+               (fun t => (fun t => is_union t || is_mutable t) t || (fun _ => false) t))
+      by reflexivity.
+    rewrite ty_any_or, H3, ty_any_false. reflexivity.
+Qed.
+
+Lemma stage1_stage2 : forall t, stage1 t = true -> stage2 t = true.
+Proof.
+  intros t H. unfold stage1, stage2 in *. apply negb_true_iff in H. apply negb_true_iff.
+  revert H. apply ty_any_mono. intros t0 Hq.
+  destruct t0 as [| | | | | |x ms|x dd cs]; try discriminate; cbn in *.
+  - destruct x; try discriminate; reflexivity.
+  - reflexivity.
+Qed.
+
+(* the statement of C09 outside the recorded classes: for every well-formed type and every
+   well-typed value that is in no known-finding class, all four encodings round-trip *)
+Theorem roundtrip_outside_known : forall V E t v,
+  is_aggr t = true -> wf_ty t = true -> wt t v = true -> known_class V t v = 0%N ->
+  exists bs, encode V E t v = Ok bs /\ decode t bs = Ok v.
+Proof.
+  intros V E t v Ha Hwf Hw Hk. destruct (known0_tgood V t v Hwf Hk) as [Hg Hn].
+  now apply roundtrip_tgood.
+Qed.
+
+Theorem roundtrip_S2 : forall V E t v,
+  is_aggr t = true -> wf_ty t = true -> stage2 t = true -> wt t v = true ->
+  known_class V t v = 0%N ->
+  exists bs, encode V E t v = Ok bs /\ decode t bs = Ok v.
+Proof. intros. now apply roundtrip_outside_known. Qed.
+
+Theorem roundtrip_S1 : forall V E t v,
+  is_aggr t = true -> wf_ty t = true -> stage1 t = true -> wt t v = true ->
+  known_class V t v = 0%N ->
+  exists bs, encode V E t v = Ok bs /\ decode t bs = Ok v.
+Proof. intros. now apply roundtrip_outside_known. Qed.
+
+(* in stage 1 the optional-member class is empty: only char8 >= 0x80 and float128/XCDR1 remain *)
+Lemma stage1_known : forall V t v, stage1 t = true ->
+  known_class V t v = 0%N \/ known_class V t v = 1%N \/ known_class V t v = 2%N.
+Proof.
+  intros V t v H1. pose proof (stage1_stage2 t H1) as H2.
+  unfold known_class. rewrite H2. cbn [negb].
+  destruct (val_nonascii_char v); [tauto|].
+  destruct V; cbn [andb]; [|tauto].
+  destruct (ty_any is_f128 t); [tauto|].
+  assert (Ho : ty_any has_opt_member t = false).
+  { unfold stage1 in H1. apply negb_true_iff in H1. revert H1. apply ty_any_mono.
+    intros t0 Hq. rewrite Hq. now rewrite orb_true_r. }
+  rewrite Ho. tauto.
+Qed.
+
+(* ------------------------------------------------------------------ witnesses *)
+Definition mk (id : Z) : minfo := mkM id false false false false [].
+Definition mko (id : Z) : minfo := mkM id true false false false [].
+
+Definition refutes (V : ver) (E : endian) (t : ty) (v : val) (k : N) : Prop :=
+  is_aggr t = true /\ wf_ty t = true /\ wt t v = true /\ known_class V t v = k /\
+  exists bs, encode V E t v = Ok bs /\ decode t bs <> Ok v.
+
+Ltac wit :=
+  unfold refutes; do 4 (split; [vm_compute; reflexivity|]);
+  eexists; split; [vm_compute; reflexivity|vm_compute; discriminate].
+
+(* class 1: {char8 'e-acute'; uint8 9} *)
+Lemma witness_char8 :
+  refutes V1 LE (TStruct Final [(mk 0, TPrim PChar8); (mk 1, TPrim PU8)])
+          (VData [(0, VP KChar8 233); (1, VP KU8 9)]) 1.
+Proof. wit. Qed.
+
+(* class 2: {uint64 7; float128 9} in XCDR1 *)
+Lemma witness_float128 :
+  refutes V1 LE (TStruct Final [(mk 0, TPrim PU64); (mk 1, TPrim PF128)])
+          (VData [(0, VP KU64 7); (1, VP KF128 9)]) 2.
+Proof. wit. Qed.
+
+(* class 3: {@optional long 5; long 77} in XCDR1 *)
+Lemma witness_optional_xcdr1 :
+  refutes V1 LE (TStruct Final [(mko 0, TPrim PI32); (mk 1, TPrim PI32)])
+          (VData [(0, VP KI32 5); (1, VP KI32 77)]) 3.
+Proof. wit. Qed.
+
+(* class 4 (D26): mutable {sequence<long> [7;1]; long 77} in XCDR2: EMHEADER LC = 5 *)
+Lemma witness_lc5_sequence :
+  refutes V2 LE (TStruct Mutable [(mk 0, TSeq (TPrim PI32)); (mk 1, TPrim PI32)])
+          (VData [(0, VSeqP KI32 [7; 1]); (1, VP KI32 77)]) 4.
+Proof. wit. Qed.
+
+(* class 4: final {mutable {long 5}; long 77} in XCDR2: the nested mutable struct is not skipped *)
+Lemma witness_nested_mutable :
+  refutes V2 LE (TStruct Final [(mk 0, TStruct Mutable [(mk 0, TPrim PI32)]); (mk 1, TPrim PI32)])
+          (VData [(0, VData [(0, VP KI32 5)]); (1, VP KI32 77)]) 4.
+Proof. wit. Qed.
+
+(* class 4: mutable {uint64 9} in XCDR1: alignment origin of the parameter value *)
+Lemma witness_xcdr1_mutable_align :
+  refutes V1 LE (TStruct Mutable [(mk 0, TPrim PU64)]) (VData [(0, VP KU64 9)]) 4.
+Proof. wit. Qed.
+
+(* class 4: final {appendable union (case 10: octet 3); octet 4} in XCDR1: no DHEADER written, one read *)
+Lemma witness_appendable_union_xcdr1 :
+  refutes V1 LE
+    (TStruct Final [(mk 0, TUnion Appendable (TPrim PI32) [(mkM 1 false false false false [10], TPrim PU8)]);
+                    (mk 1, TPrim PU8)])
+    (VData [(0, VData [(0, VP KI32 10); (1, VP KU8 3)]); (1, VP KU8 4)]) 4.
+Proof. wit. Qed.
+
+(* class 4: sequence of appendable unions in XCDR2: elements written as FINAL unions *)
+Lemma witness_union_sequence :
+  refutes V2 LE
+    (TStruct Final [(mk 0, TSeq (TUnion Appendable (TPrim PI32) [(mkM 1 false false false false [10], TPrim PU8)]))])
+    (VData [(0, VSeqData [[(0, VP KI32 10); (1, VP KU8 3)]])]) 4.
+Proof. wit. Qed.
+
+(* non-vacuity of the round-trip theorems: a nested S2 value in no class *)
+Definition ex_ty : ty :=
+  TStruct Appendable
+    [(mk 0, TPrim PU8); (mko 1, TPrim PU64); (mk 2, TStr); (mk 3, TSeq (TPrim PI16));
+     (mk 4, TArr 2 (TStruct Final [(mk 0, TEnum PI32 [0; 5]); (mk 1, TWStr)]))].
+Definition ex_val : val :=
+  VData [(0, VP KU8 7); (1, VP KU64 9); (2, VStr [104; 233; 8364]); (3, VSeqP KI16 [-1; 300]);
+         (4, VSeqData [[(0, VData [(0, VP KI32 5)]); (1, VStr [128512])];
+                       [(0, VData [(0, VP KI32 0)]); (1, VStr [])]])].
+Lemma ex_nonvacuous :
+  is_aggr ex_ty = true /\ wf_ty ex_ty = true /\ stage2 ex_ty = true /\ wt ex_ty ex_val = true /\
+  known_class V2 ex_ty ex_val = 0%N /\
+  (exists bs, encode V2 BE ex_ty ex_val = Ok bs /\ decode ex_ty bs = Ok ex_val).
+Proof.
+  do 5 (split; [vm_compute; reflexivity|]). eexists. split; vm_compute; reflexivity.
+Qed.
